@@ -125,7 +125,10 @@ Section Machine.
               if nlen d <? 5 + l + 2 then ret s
               else
                 let s1 := set_buf s (skipn (N.to_nat (5 + l + 2)) d) in
-                rec s1 reply_domain_name (AName (RName false (firstn (N.to_nat l) (skipn 5 d))))
+                match c_ty c with
+                | RConnect => rec s1 reply_ipv4 AConn
+                | _ => rec s1 reply_domain_name (AName (RName false (firstn (N.to_nat l) (skipn 5 d))))
+                end
             else if code typ =? c_REPLY_IPV6 then
               if 22 <=? nlen d then
                 let s1 := set_buf s (skipn 22 d) in
